@@ -24,6 +24,14 @@ import gen  # noqa: E402
 WORK = os.path.join(ROOT, ".work")
 HARNESS = os.path.join(ROOT, "harness")
 REPO = "/repo"
+# Development aid (seeded-change evaluation in parallel): VERIF_REPO=<scratch worktree> runs the same harness
+# crate against that tree with its own work dir.  Registered commands never set it: they check /repo itself.
+ALT = os.environ.get("VERIF_REPO")
+if ALT:
+    import hashlib
+    _tag = hashlib.sha1(ALT.encode()).hexdigest()[:8]
+    WORK = os.path.join(ROOT, ".work", "alt-" + _tag)
+    REPO = ALT
 JOBS = int(os.environ.get("VERIF_JOBS", "16"))
 MEM_KB = int(os.environ.get("VERIF_MEM_KB", str(14 * 1024 * 1024)))
 
@@ -361,6 +369,8 @@ def main():
     os.makedirs(WORK, exist_ok=True)
     gen.write()
     sync_lock()
+    if ALT:
+        use_alt_harness()
 
     if a.replay:
         return do_replay(prop, a.replay)
@@ -462,7 +472,7 @@ def main():
         log("INCONCLUSIVE harness=%s: %s" % (n, cls[n]["reason"]))
 
     wall = time.time() - t0
-    if not a.no_evidence and not a.only:
+    if not a.no_evidence and not a.only and not ALT:
         write_evidence(prop, a.tier, seed, hs, res, cls, violations, known_hits, unconfirmed, inconclusive,
                        replayed, wall)
     npass = sum(1 for n in byname if cls[n]["verdict"] == "pass")
@@ -475,6 +485,19 @@ def main():
     return 0
 
 
+def use_alt_harness():
+    """copy the harness crate next to the alternative work dir with its ruint path dependency redirected"""
+    global HARNESS
+    dst = os.path.join(WORK, "harness")
+    if os.path.exists(dst):
+        shutil.rmtree(dst)
+    shutil.copytree(HARNESS, dst, ignore=shutil.ignore_patterns("target"))
+    p = os.path.join(dst, "Cargo.toml")
+    s = open(p).read().replace('path = "/repo"', 'path = "%s"' % ALT)
+    open(p, "w").write(s)
+    HARNESS = dst
+
+
 def sync_lock():
     """keep harness/Cargo.lock resolvable offline: seed it from /repo's lock if missing"""
     dst = os.path.join(HARNESS, "Cargo.lock")
@@ -483,7 +506,7 @@ def sync_lock():
 
 
 def save_replay(prop, rec):
-    d = os.path.join(ROOT, "replays", prop)
+    d = os.path.join(WORK if ALT else ROOT, "replays", prop)
     os.makedirs(d, exist_ok=True)
     safe = re.sub(r"[^A-Za-z0-9_.-]+", "_", rec["what"])[:60]
     path = os.path.join(d, "%s--%s.json" % (rec["harness"], safe))
